@@ -7,6 +7,7 @@
  *   xpd  <yang-hex[,yang-hex...]> <xml-hex>                       print the canonical dump of the validated tree
  *   xp   <yang...> <xml-hex> <dump> <ctx> <expr-hex> [<ast>]      evaluate <expr> with context node <ctx>
  *   xp2  <yang...> <xml-hex> <kind> <expr1-hex> <expr2-hex>       evaluate both from the root: `<result1> || <result2>`
+ *   xpa  <yang...> <expr-hex>                                     lys_find_xpath_atoms(ctx, NULL, expr, 0): `<rc>:<count>`
  *   xpk  <kernel> <args...>                                       conversion kernels (see below)
  *
  * <ctx> = pre-order index of the context node in the whole forest (default nodes included), -1 = the root.
@@ -399,6 +400,21 @@ main(void)
                 eval_case(NULL, e2);
                 free(e1);
                 free(e2);
+            }
+        } else if (!strcmp(comp, "xpa") && (c.nf >= 3)) {
+            /* schema evaluation: only the modules are needed (empty document) */
+            int e = load(c.f[1], "-");
+
+            if (e && (e != 3)) {
+                printf("LOADERR%d", e);
+            } else {
+                char *expr = vunhex(c.f[2], NULL);
+                struct ly_set *set = NULL;
+                LY_ERR r = lys_find_xpath_atoms(g_ctx, NULL, expr, 0, &set);
+
+                printf("%d:%u", (int)r, set ? set->count : 0);
+                ly_set_free(set, NULL);
+                free(expr);
             }
         } else if (!strcmp(comp, "xpk") && (c.nf >= 3) && !strcmp(c.f[1], "s2n")) {
             char *s = vunhex(c.f[2], NULL);
